@@ -59,6 +59,50 @@ def carried_append_pairs(body, carried, assigned):
     return out
 
 
+def indexed_stores(body, target):
+    """{list name: offset c} for statements `xs[v + c] = ...` / `xs[v] = ...` in a loop body (not inside nested loops or
+    functions), v being a name bound by the loop target.  None as offset: an index of another form."""
+    names = {n.id for n in ast.walk(target) if isinstance(n, ast.Name)}
+    out = {}
+
+    def walk(stmts):
+        for st in stmts:
+            if isinstance(st, (ast.For, ast.While, ast.FunctionDef, ast.ClassDef)):
+                continue
+            if isinstance(st, ast.Assign):
+                for t in st.targets:
+                    if isinstance(t, ast.Subscript) and isinstance(t.value, ast.Name) and not isinstance(t.slice, ast.Slice):
+                        used = {n.id for n in ast.walk(t.slice) if isinstance(n, ast.Name)}
+                        if not (used & names):
+                            continue
+                        e = t.slice
+                        c = None
+                        if isinstance(e, ast.Name):
+                            c = 0
+                        elif isinstance(e, ast.BinOp) and isinstance(e.op, ast.Add):
+                            if isinstance(e.left, ast.Name) and isinstance(e.right, ast.Constant) and isinstance(e.right.value, int):
+                                c = e.right.value
+                            elif isinstance(e.right, ast.Name) and isinstance(e.left, ast.Constant) and isinstance(e.left.value, int):
+                                c = e.left.value
+                        prev = out.get(t.value.id)
+                        if c is None or prev is None and t.value.id in out:
+                            out[t.value.id] = None
+                        elif prev is None:
+                            out[t.value.id] = c
+                        elif prev == c:
+                            pass
+                        elif {prev, c} == {0, 1} or prev == "0+1":
+                            out[t.value.id] = "0+1"    # the record of the current step is completed and the next one is started
+                        else:
+                            out[t.value.id] = None
+            for fld in ("body", "orelse", "finalbody"):
+                sub = getattr(st, fld, None)
+                if isinstance(sub, list) and sub and isinstance(sub[0], ast.stmt):
+                    walk(sub)
+    walk(body)
+    return out
+
+
 def upward_exposed(stmts, candidates):
     """Names of `candidates` that may be read in the block before being assigned."""
     exposed = set()
@@ -176,6 +220,33 @@ def loop_body(st):
     return body
 
 
+_HEAD_CACHE = {}
+
+
+def while_head(st):
+    """(test, body) of a while loop with the breaks at the head of its body folded into the test:
+    `while G: if X: break; REST`  is  `while G and not X: REST`  (and `while True: if X: break; ...` is `while not X: ...`)."""
+    r = _HEAD_CACHE.get(id(st))
+    if r is not None and r[0] is st:
+        return r[1], r[2]
+    test, body = st.test, list(loop_body(st))
+    while body and isinstance(body[0], ast.If) and not body[0].orelse and len(body[0].body) == 1 and isinstance(body[0].body[0], ast.Break):
+        x = body[0].test
+        neg = x.operand if isinstance(x, ast.UnaryOp) and isinstance(x.op, ast.Not) else ast.UnaryOp(op=ast.Not(), operand=x)
+        ast.copy_location(neg, x)
+        if isinstance(test, ast.Constant) and test.value is True:
+            test = neg
+        else:
+            test = ast.BoolOp(op=ast.And(), values=[test, neg])
+            ast.copy_location(test, x)
+        ast.fix_missing_locations(test)
+        body = body[1:]
+    if not body:
+        body = [ast.copy_location(ast.Pass(), st)]
+    _HEAD_CACHE[id(st)] = (st, test, body)
+    return test, body
+
+
 class LoopMixin:
     # ------------------------------------------------------------------
     # for
@@ -225,12 +296,39 @@ class LoopMixin:
             if recorded:
                 skip = {id(stx) for stx, _ in recorded.values()}
                 body = [x for x in body if id(x) not in skip]
+            # preallocated lists that the body fills by index (xs[step + 1] = ...): the same series as one grown by append
+            filled = {}
+            for name, c in indexed_stores(body, st.target).items():
+                cur = frame.lookup(name)
+                if not isinstance(cur, ListV) or cur.kind == "series" or name in recorded:
+                    continue
+                both = c == "0+1"
+                if both:
+                    c = 1
+                if c is None or c < 0 or c > 2:
+                    raise Unmodelled("list %s is filled at an index that is not loop variable + constant at %s" % (name, frame.loc(st)))
+                try:
+                    total = self.length(cur, frame, st)
+                    head = [self.index(cur, Num(j), frame, st) for j in range(c)]
+                except RaiseSignal:
+                    raise Unmodelled("preallocated list %s is shorter than its first filled slot at %s" % (name, frame.loc(st)))
+                if total != (hi - lo) + c:
+                    raise Unmodelled("preallocated list %s has %s slots but the loop fills %s at %s" % (name, total, (hi - lo) + c, frame.loc(st)))
+                filled[name] = head
+                if both:
+                    state.setdefault("overwrite_current", set()).add(name)
+                frame_owner = frame
+                self._set_var(frame_owner, name, ListV("lit", items=list(head)))
             # series: lists appended in the body
-            for name in sorted(set(apps) | set(recorded)):
+            for name in sorted(set(apps) | set(recorded) | set(filled)):
                 cur = frame.lookup(name)
                 if isinstance(cur, ListV) and cur.kind == "lit":
                     s = ListV("series", name=name, init=list(cur.items), appended=[], k=idx, lo=lo, n=hi - lo,
                               popped=0, closed=False, elem_k=None, func=frame.func)
+                    if name in filled:
+                        s.filled_by_index = True
+                        if name in state.get("overwrite_current", ()):
+                            s.overwrite_current = True
                     self._set_var(frame, name, s)
                     state["series"][name] = s
                     rec.series[name] = s
@@ -515,15 +613,7 @@ class LoopMixin:
             return TupV([self.inductive_like(x, "%s[%d]" % (path, i)) for i, x in enumerate(proto.items)])
         if isinstance(proto, ObjV):
             o = ObjV(proto.cls, path=path)
-            for f in proto.cls.fields:
-                ty = parse_type(self.repo, proto.cls.module, f.ann, proto.cls)
-                if ty.kind == "str":
-                    try:
-                        fv = self.obj_attr(proto, f.name, Frame(None, proto.cls.module, {}), f.node)
-                    except (RaiseSignal, Unmodelled):
-                        continue
-                    if isinstance(fv, StrV) and fv.s is not None:
-                        self.ctx.facts[path + "." + f.name] = ("str", fv.s)
+            self._inductive_facts(proto, path, 0)
             return o
         if proto is NONE or isinstance(proto, NoneV):
             return NONE
@@ -531,7 +621,33 @@ class LoopMixin:
             return MaybeV(path, proto.ty)
         raise Unmodelled("no inductive shape for %r" % (proto,))
 
+    def _inductive_facts(self, proto: ObjV, path: str, depth: int):
+        """Discrete facts of the first element assumed for element k (and re-checked on the element appended for k+1): string
+        fields, which optional fields are filled, and the same one level down (a record holding a Composition)."""
+        for f in proto.cls.fields:
+            ty = parse_type(self.repo, proto.cls.module, f.ann, proto.cls)
+            want = ty.kind == "str" or ty.kind == "opt" or (ty.kind == "cls" and depth < 2) or ty.kind == "any"
+            if not want:
+                continue
+            if not proto.constructed and f.name not in proto.fields and ty.kind != "str":
+                continue
+            try:
+                fv = self.resolve_maybe(self.obj_attr(proto, f.name, Frame(None, proto.cls.module, {}), f.node))
+            except (RaiseSignal, Unmodelled):
+                continue
+            if isinstance(fv, StrV) and fv.s is not None:
+                self.ctx.facts[path + "." + f.name] = ("str", fv.s)
+            elif ty.kind == "opt" and proto.constructed:
+                if fv is NONE or isinstance(fv, NoneV):
+                    pass     # not filled in the first element: nothing is assumed about later ones
+                elif not isinstance(fv, MaybeV):
+                    self.ctx.facts[path + "." + f.name] = "notnone"
+            if isinstance(fv, ObjV) and fv.cls is not None and depth < 2 and fv.cls.fields:
+                self._inductive_facts(fv, path + "." + f.name, depth + 1)
+
     def series_read(self, s: ListV, i: Rat, frame, node) -> Val:
+        if s.closed and getattr(s, "extra_tail", 0) > 0 and i.as_int() is None:
+            raise Unmodelled("record list %s is read with its look-ahead record still in place at %s" % (s.name, frame.loc(node)))
         if s.closed:
             j = i.as_int()
             if j is not None and 0 <= j < len(s.init):
@@ -580,18 +696,30 @@ class LoopMixin:
             a = self.force(args[0], frame, node)
             if not (isinstance(a, Num) and a.r.as_int() == -1):
                 raise Unmodelled("pop(%r) of series %s at %s" % (a, s.name, frame.loc(node)))
-        s.popped += 1
+        if getattr(s, "extra_tail", 0) > 0:
+            s.extra_tail -= 1          # the trailing look-ahead record of a completed record list
+        else:
+            s.popped += 1
         s.pop_nodes = getattr(s, "pop_nodes", []) + [node]
         return Opaque("popped element of %s" % s.name)
 
     def series_len(self, s: ListV) -> Rat:
         if s.closed:
-            return Rat.const(len(s.init) - s.popped) + s.n * len(s.per_iter)
+            return Rat.const(len(s.init) - s.popped + getattr(s, "extra_tail", 0)) + s.n * len(s.per_iter)
         return Rat.const(len(s.init) + len(s.appended)) + (Rat.atom(s.k) - s.lo) * 1
 
     def close_series(self, s: ListV, frame, node):
         s.per_iter = list(s.appended)
         s.closed = True
+        if getattr(s, "overwrite_current", False):
+            fin = getattr(s, "final_k", None)
+            if fin is None or len(s.init) != 1 or len(s.per_iter) != 1:
+                raise Unmodelled("record list %s is not completed and advanced exactly once per step at %s" % (s.name, frame.loc(node)))
+            # inside the loop the list carried the state (slot k+1 written at step k); afterwards slot k holds the completed
+            # record of step k and one look-ahead record trails
+            s.carrier = {"init": list(s.init), "per_iter": list(s.per_iter), "elem_k": s.elem_k}
+            s.init, s.per_iter, s.appended, s.extra_tail = [], [fin], [fin], 1
+            return
         # verify the discrete inductive hypothesis
         if s.elem_k is not None and len(s.per_iter) >= 1:
             self._check_shape(s, s.elem_k, s.per_iter[-1], "%s[k]" % s.name, frame, node)
@@ -600,13 +728,21 @@ class LoopMixin:
         if isinstance(hyp, ObjV) and isinstance(new, ObjV):
             for f in hyp.cls.fields:
                 fact = self.ctx.facts.get(path + "." + f.name)
-                if isinstance(fact, tuple) and fact[0] == "str":
+                nv = None
+                if fact is not None or any(k.startswith(path + "." + f.name + ".") for k in self.ctx.facts):
                     try:
-                        nv = self.obj_attr(new, f.name, frame, node)
+                        nv = self.resolve_maybe(self.obj_attr(new, f.name, frame, node))
                     except (RaiseSignal, Unmodelled):
                         nv = None
+                if isinstance(fact, tuple) and fact[0] == "str":
                     if not (isinstance(nv, StrV) and nv.s == fact[1]):
                         self.ctx.event("series-invariant-broken", (s.name, f.name, fact[1], nv), frame.loc(node))
+                elif fact == "notnone":
+                    if nv is None or nv is NONE or isinstance(nv, (NoneV, MaybeV)):
+                        self.ctx.event("series-invariant-broken", (s.name, f.name, "filled", nv), frame.loc(node))
+                if isinstance(nv, ObjV) and nv.cls is not None and path.count(".") < 3:
+                    sub = ObjV(nv.cls, path=path + "." + f.name)
+                    self._check_shape(s, sub, nv, path + "." + f.name, frame, node)
         elif isinstance(hyp, TupV) and isinstance(new, TupV) and len(hyp.items) == len(new.items):
             for i, (a, b) in enumerate(zip(hyp.items, new.items)):
                 self._check_shape(s, a, b, "%s[%d]" % (path, i), frame, node)
@@ -646,7 +782,8 @@ class LoopMixin:
         rec = LoopRec(st, frame)
         rec.kind = "while"
         self.ctx.loops.append(rec)
-        t0 = self.eval(st.test, frame)
+        test, wbody = while_head(st)
+        t0 = self.eval(test, frame)
         rec.guard0 = t0
         entered = self.truth(t0, frame, st.test)
         rec.entered = entered
@@ -665,13 +802,13 @@ class LoopMixin:
             bound[name] = b
             self._set_var(frame, name, b)
         rec.bound = bound
-        g = self.eval(st.test, frame)
+        g = self.eval(test, frame)
         rec.guard = g
         state = {"rec": rec, "k": None, "series": {}, "aug": {}, "while": True}
         self.ctx.loop_stack.append(state)
         saved_unrolled, self.ctx.unrolled = getattr(self.ctx, "unrolled", 0), 0
         try:
-            self.exec_block(loop_body(st), frame)
+            self.exec_block(wbody, frame)
         finally:
             self.ctx.loop_stack.pop()
             self.ctx.unrolled = saved_unrolled
